@@ -5,6 +5,7 @@ import (
 	"go/types"
 	"regexp"
 	"strings"
+	"sync"
 )
 
 // Sort is an SMT sort name: "Int", "Bool", "Slice" or a struct datatype name.
@@ -43,6 +44,7 @@ type VC struct {
 	structs  map[string]*types.Struct // datatype name -> struct type
 	ufuncs   map[string]bool
 	trusted  map[string]bool // trusted-base notes actually used in this VC
+	unfolded map[string]bool
 }
 
 type Obligation struct {
@@ -66,7 +68,7 @@ type Obligation struct {
 
 func newVC(p *Program) *VC {
 	return &VC{prog: p, declSet: map[string]bool{}, dtSet: map[string]bool{}, strLits: map[string]string{},
-		structs: map[string]*types.Struct{}, ufuncs: map[string]bool{}, trusted: map[string]bool{}}
+		structs: map[string]*types.Struct{}, ufuncs: map[string]bool{}, trusted: map[string]bool{}, unfolded: map[string]bool{}}
 }
 
 func (vc *VC) warn(format string, args ...interface{}) {
@@ -389,8 +391,23 @@ func isOpaqueArray(t types.Type) bool {
 	return ok
 }
 
+var typeRegistry sync.Map // typeKey -> types.Type
+
 // typeKey is a stable readable identifier for a type, used in heap component names.
 func typeKey(t types.Type) string {
+	k := typeKey0(t)
+	typeRegistry.LoadOrStore(k, t)
+	return k
+}
+
+func typeByKey(k string) types.Type {
+	if v, ok := typeRegistry.Load(k); ok {
+		return v.(types.Type)
+	}
+	return nil
+}
+
+func typeKey0(t types.Type) string {
 	s := types.TypeString(t, func(p *types.Package) string {
 		path := p.Path()
 		path = strings.TrimPrefix(path, repoModule+"/")
@@ -527,9 +544,7 @@ func (vc *VC) zeroValue(t types.Type) string {
 		}
 		return "(mk." + dt + " " + strings.Join(parts, " ") + ")"
 	case *types.Array:
-		n := "zero." + typeKey(t)
-		vc.declare(n, "Int")
-		return n
+		return "0" // the all-zero array value is the id 0 of its opaque sort
 	default:
 		return "0"
 	}
